@@ -311,6 +311,11 @@ class Implements(NameAndModuleComparisonMixin,
     # interfaces actually declared for a class
     declared = ()
 
+    # The class this specification was computed for. Unlike ``inherit``,
+    # this isn't reset by the *only* forms, so such specifications can
+    # still be pickled by reference.
+    _cls = None
+
     # Weak cache of {class: <implements>} for super objects.
     # Created on demand. These are rare, as of 5.0 anyway. Using a class
     # level default doesn't take space in instances. Using _v_attrs would be
@@ -352,7 +357,10 @@ class Implements(NameAndModuleComparisonMixin,
         return f'classImplements({name}{declared_names})'
 
     def __reduce__(self):
-        return implementedBy, (self.inherit, )
+        cls = self.inherit
+        if cls is None:
+            cls = self._cls
+        return implementedBy, (cls, )
 
 
 def _implements_name(ob):
@@ -493,6 +501,7 @@ def implementedBy(
         spec = Implements.named(spec_name, *[implementedBy(c) for c in bases])
         spec.inherit = cls
 
+    spec._cls = cls
     try:
         cls.__implemented__ = spec
         if not hasattr(cls, '__providedBy__'):
